@@ -47,10 +47,10 @@ def _case(draw):
                           FL=draw(gen.limiter_names)))
     # 'late': the boundary conditions are edited AFTER the variable exists (all sides, or one side only), so the solve has
     # to notice the edit and rebuild its cached boundary system
-    late = draw(st.sampled_from(['none', 'none', 'all', 'one', 'one', 'aug']))
+    late = draw(st.sampled_from(['none', 'none', 'all', 'one', 'one', 'aug', 'cset']))
     return dict(grid=g, bc=bc, init=draw(gen.cell_interior(d)), terms=terms, ext=draw(st.booleans()),
                 lin_seed=draw(st.integers(0, 2 ** 31 - 1)), late=late,
-                late_side=[draw(st.integers(0, len(d) - 1)), draw(st.sampled_from(['lo', 'hi']))], presolve=draw(st.booleans()),
+                late_side=[draw(st.integers(0, len(d) - 1)), draw(st.sampled_from(['lo', 'hi']))], presolve=draw(st.booleans()), explicit_first=draw(st.integers(0, 3)) == 0,
                 # how the solution variable came to be: ordinary, built without a pre-calculated boundary term (public keyword),
                 # or handed over by solveExplicitPDE (which builds such a variable)
                 varkind=draw(st.sampled_from(['ordinary', 'ordinary', 'ordinary', 'precalc_false', 'from_explicit'])))
@@ -200,7 +200,23 @@ def check(case):
         phi = pf.CellVariable(m, np.array(case['init'], float))
         if case.get('presolve'):
             pf.solvePDE(phi, [pf.linearSourceTerm(pf.CellVariable(m, 1.0)), pf.constantSourceTerm(pf.CellVariable(m, np.array(case['init'], float)))])
-        if late == 'all':
+        if late == 'cset':
+            # all conditions known at construction; later ONLY the datum c of one side is re-assigned, through the property
+            # setter, on a variable whose state is clean (a boundary value that changes between solves)
+            from ..common import apply_bc
+            import copy as _copy
+            phi = pf.CellVariable(m, np.array(case['init'], float), apply_bc(pf.BoundaryConditions(m), case['bc']))
+            if case.get('presolve'):
+                pf.solvePDE(phi, [pf.linearSourceTerm(pf.CellVariable(m, 1.0)), pf.constantSourceTerm(pf.CellVariable(m, np.array(case['init'], float)))])
+            else:
+                phi.apply_BCs()
+            ax, side = case['late_side']
+            bf = getattr(phi.BCs, SIDES[ax][0 if side == 'lo' else 1])
+            newc = 2.0 * np.array(case['bc'][ax][side]['c'], float) + 0.3
+            bf.c = newc.reshape(bf.c.shape)
+            bc_final = _copy.deepcopy(case['bc'])
+            bc_final[ax][side]['c'] = newc.tolist()
+        elif late == 'all':
             from ..common import apply_bc
             apply_bc(phi.BCs, case['bc'])
         elif late == 'aug':
@@ -228,6 +244,9 @@ def check(case):
             for k in 'abc':
                 arr = getattr(bf, k)
                 arr[:] = np.array(case['bc'][ax][side][k], float).reshape(arr.shape)
+        if case.get('explicit_first'):
+            # the freshly edited variable first serves as the input of an explicit step (result discarded)
+            pf.solveExplicitPDE(phi, 1.0, np.zeros(n))
         P = dict(name=name, faces=g['faces'], bc=bc_final, init=np.asarray(phi.value, float).tolist())
     geo = oracle.Geometry(name, g['faces'])
     terms, contribs = [], []
